@@ -33,8 +33,6 @@ TOTAL_HERE = {
     ('banner:Banner.parse', 'ValueError', 'int(protocol['): 'RX_PROTOCOL groups are digit runs',
     ('ssh1_crc32:SSH1_CRC32.calc', 'TypeError', 'ord(v[i:i + 1])'): 'i ranges over range(len(v)), so the slice has one byte',
     ('readbuf:ReadBuf.read_mpint2', 'TypeError', 'ord(v[0:1])'): 'dominated by the len(v) == 0 early return',
-    ('ssh_audit:output_algorithm', 'ValueError', "alg_name.rindex('-')"): "dominated by alg_name.startswith('gss-'), which contains '-'",
-    ('ssh_audit:build_struct.fetch_notes', 'ValueError', "algorithm.rindex('-')"): "dominated by algorithm.startswith('gss-'), which contains '-'",
     ('ssh_socket:SSH_Socket.__init__', 'ValueError', 'raise ValueError'): 'host is a str and the port was validated by AuditConf.__setattr__ (C18 rule port)',
     ('ssh1_publickeymessage:SSH1_PublicKeyMessage.__init__', 'ValueError', 'raise ValueError'): 'parse() passes 3-tuples',
     ('ssh_audit:audit', 'RuntimeError', 'raise RuntimeError'): 'the four (policy, make_policy) combinations are exhaustive; process_commandline loads a policy only when make_policy is False',
@@ -46,6 +44,15 @@ TOTAL_HERE = {
 }
 # ensure_read's exception must stay tracked: remove the exemption line above from the table used for tracking
 del TOTAL_HERE[('ssh_socket:SSH_Socket.ensure_read', 'InsufficientReadException', 'raise SSH_Socket.InsufficientReadException')]
+
+
+def _conjunct_of(node, test):
+    """node is the test itself or a conjunct of it (so its truth follows from the test being true)"""
+    if node is test:
+        return True
+    if isinstance(test, ast.BoolOp) and isinstance(test.op, ast.And):
+        return any(_conjunct_of(node, v) for v in test.values)
+    return False
 
 
 def partial_sites(f):
@@ -87,7 +94,19 @@ def partial_sites(f):
                 if isinstance(a, (ast.GeneratorExp, ast.ListComp, ast.Name, ast.Call, ast.Attribute)):
                     out.append(Site('ValueError', n, '%s() of a possibly empty sequence' % n.func.id, f))
             elif isinstance(n.func, ast.Attribute) and n.func.attr in ('index', 'rindex') and n.args and isinstance(n.args[0], ast.Constant) and isinstance(n.args[0].value, str):
-                out.append(Site('ValueError', n, 'str.%s without a containment fact' % n.func.attr, f))
+                # containment fact: on the path the same string is known to start/end with (or contain) a literal that contains the needle
+                recv, needle = unparse(n.func.value), n.args[0].value
+                fact = False
+                for t, p, k in path_condition(n):
+                    for c in ast.walk(t):
+                        if p and isinstance(c, ast.Call) and isinstance(c.func, ast.Attribute) and c.func.attr in ('startswith', 'endswith') and unparse(c.func.value) == recv and c.args and isinstance(c.args[0], ast.Constant) \
+                                and isinstance(c.args[0].value, str) and needle in c.args[0].value and _conjunct_of(c, t):
+                            fact = True
+                        if p and isinstance(c, ast.Compare) and len(c.ops) == 1 and isinstance(c.ops[0], ast.In) and isinstance(c.left, ast.Constant) and isinstance(c.left.value, str) and needle in c.left.value \
+                                and unparse(c.comparators[0]) == recv and _conjunct_of(c, t):
+                            fact = True
+                if not fact:
+                    out.append(Site('ValueError', n, 'str.%s without a containment fact' % n.func.attr, f))
         elif isinstance(n, ast.Subscript) and isinstance(n.ctx, ast.Load):
             if isinstance(n.value, ast.Name) and n.value.id in peer_bytes and isinstance(n.slice, ast.Constant) and isinstance(n.slice.value, int):
                 out.append(Site('IndexError', n, 'constant index into peer bytes whose real length is not checked', f))
